@@ -10,6 +10,7 @@ CONSTANTS
   MaxLog = 8
   MaxNet = 8
   MaxEnts = 0
+  LossySend = FALSE
   SimDepth = 40
   W_CommitAnyTerm = FALSE
   W_VoteIgnoreVoted = FALSE
@@ -21,4 +22,4 @@ CONSTANTS
 INIT Init
 NEXT Next
 CONSTRAINT NetBound
-INVARIANTS ElectionSafety LogMatching StateMachineSafety LeaderCompleteness CommitWithinLog PersistedMatchesVolatile EmitSim
+INVARIANTS ElectionSafety LogMatching StateMachineSafety LeaderCompleteness CommitWithinLog PersistedMatchesVolatile MatchSound EmitSim
